@@ -36,11 +36,22 @@ def defaultTable : Table :=
 
 def defaultReg : Reg := { tbl := defaultTable, cache := [] }
 
-/-- the shapes of the registry code the model of the memo relies on -/
+/-- the shapes of the code the model relies on beyond `_t_eval`'s branch table:
+    the registry memo (`register` / `register_op` / `get_handler`), `_get_sequence_item`,
+    the spec-to-ops step (`Path.from_text` splits on `'.'` and maps `*` / `**` only under
+    `PATH_STAR`, `Path.__init__` splices Path and T parts step by step and turns any other
+    part into a `'P'` step, `_t_child` appends `(op, arg)`, the AUTO string shortcut and
+    `Path.glomit` evaluate `path_t` with `_t_eval`; probes of `Path(...)` on fixed inputs),
+    the part index expression `i // 2`, and PathAccessError carrying the caught exception,
+    the path and the index as given -/
 def factsOK : Bool :=
   Generated.c01RegisterResetsMemo && Generated.c01RegisterOpResetsMemo &&
   Generated.c01GetHandlerMemo && Generated.c01ExactFirst &&
   Generated.c01SeqItem == "return target[int(index)]" &&
-  Generated.c01DecimalZeros.contains 48 && Generated.c01IntSpaces.contains 32
+  Generated.c01DecimalZeros.contains 48 && Generated.c01IntSpaces.contains 32 &&
+  Generated.c01PathInitShape && Generated.c01FromTextShape && Generated.c01AutoStrShortcut &&
+  Generated.c01TChildAppends && Generated.c01PathProbesOK &&
+  Generated.tPartIdxExprs == ["i // 2"] &&
+  Generated.c01PaeStoresArgs && Generated.c01PaeCarriesCaught
 
 end Glom.C01
